@@ -11,6 +11,8 @@
 (* the top level over a reduced alphabet.                                                                  *)
 EXTENDS Naturals, Sequences, FiniteSets, TLC, Json
 CONSTANTS SkipDupCheck, NoSanityInCreate, NoSanityInFill, NoExcl, Emit,
+          WithPre,             \* the unpack root may hold something before the run (PreStates); FALSE = always empty
+          MkdirReusesAnything, \* deviation (the pinned tree before fix c2a2e0f): mkdir's EEXIST is accepted whatever exists there - also a symlink left by an earlier unpack
           NoSanityInAttr,   \* deviation: set_attribs does not skip entries with an insane name
           AttrFollowsLinks, \* deviation: chown / utimens / setxattr without AT_SYMLINK_NOFOLLOW (the l-variants): a link entry re-owns what it points at
           ChmodOnLinks,     \* deviation: chmod (which always follows) is also issued for symlink entries
@@ -49,7 +51,7 @@ Create(f, rel, n) ==
   IF r[1] = "err" THEN [fs |-> f, bad |-> FALSE, fail |-> TRUE]
   ELSE LET p == r[2]  ex == Lookup(f, p) # {} IN
        IF n.kind = "dir"
-       THEN (IF ex THEN [fs |-> f, bad |-> FALSE, fail |-> FALSE]
+       THEN (IF ex THEN [fs |-> f, bad |-> FALSE, fail |-> ~(MkdirReusesAnything \/ (CHOOSE x \in Lookup(f, p) : TRUE).t = "dir")]   \* lstat: a directory may be re-used
              ELSE [fs |-> f \cup {[p |-> p, t |-> "dir", tg |-> "a"]}, bad |-> ~Inside(p), fail |-> FALSE])
        ELSE IF ex /\ ~(NoExcl /\ n.kind = "file")
        THEN [fs |-> f, bad |-> FALSE, fail |-> TRUE]
@@ -133,9 +135,18 @@ InForests(f) == \/ \E n \in Node : f = <<n>>
                 \/ \E n \in Node3 : f = <<n>>
                 \/ \E n \in Node2, m \in LeafD : f = <<n, m>> \/ f = <<m, n>>
 
-VARIABLES forest, result
-Init == InForests(forest) /\ result = [fs |-> {[p |-> <<"J">>, t |-> "dir", tg |-> "a"], [p |-> Root, t |-> "dir", tg |-> "a"],
-                                              [p |-> <<"OUT">>, t |-> "dir", tg |-> "a"]}, bad |-> FALSE, fail |-> FALSE, ran |-> FALSE]
+(* what the unpack root holds before the run - e.g. what an earlier unpack of another crafted image left there *)
+RA == Root \o <<"a">>
+PreStates == {{}} \cup {{[p |-> RA, t |-> "link", tg |-> t]} : t \in {"up", "upup", "absout"}}
+                  \cup {{[p |-> RA, t |-> "dir", tg |-> "a"]}, {[p |-> RA, t |-> "file", tg |-> "a"]},
+                        {[p |-> RA, t |-> "dir", tg |-> "a"], [p |-> RA \o <<"b">>, t |-> "link", tg |-> "upup"]}}
+NodeAB == {n \in Node : n.name \in {"a", "b"}}
+InForestsPre(f) == (\E n \in NodeAB : f = <<n>>) \/ (\E n \in Node2 : f = <<n>>)
+VARIABLES forest, result, pre
+Init == /\ pre \in (IF WithPre THEN PreStates ELSE {{}})
+        /\ IF pre = {} THEN InForests(forest) ELSE InForestsPre(forest)
+        /\ result = [fs |-> {[p |-> <<"J">>, t |-> "dir", tg |-> "a"], [p |-> Root, t |-> "dir", tg |-> "a"],
+                            [p |-> <<"OUT">>, t |-> "dir", tg |-> "a"]} \cup pre, bad |-> FALSE, fail |-> FALSE, ran |-> FALSE]
 Run == /\ ~result.ran
        /\ IF ~SkipDupCheck /\ AnyDup(forest)
           THEN result' = [result EXCEPT !.fail = TRUE, !.ran = TRUE]                      \* tree_sort rejects duplicates
@@ -144,11 +155,11 @@ Run == /\ ~result.ran
                    g0 == Fill(w, <<>>, sorted)
                    g == Attr(g0, <<>>, sorted)
                IN result' = [fs |-> g.fs, bad |-> g.bad, fail |-> g.fail, ran |-> TRUE]
-       /\ UNCHANGED forest
-Next == Run \/ (result.ran /\ UNCHANGED <<forest, result>>)
-Spec == Init /\ [][Next]_<<forest, result>>
+       /\ UNCHANGED <<forest, pre>>
+Next == Run \/ (result.ran /\ UNCHANGED <<forest, result, pre>>)
+Spec == Init /\ [][Next]_<<forest, result, pre>>
 Confined == ~result.bad /\ \A e \in result.fs : Inside(e.p) \/ e.p \in {<<"J">>, <<"OUT">>}
 (* with a deviation constant on, the forests that end "bad" are exactly those for which that barrier is the only *)
 (* protection: they are emitted and unpacked by the real tool                                                    *)
-EmitOK == (Emit /\ result.ran /\ result.bad) => PrintT(<<"RESULT", ToJson([forest |-> forest, fail |-> result.fail])>>)
+EmitOK == (Emit /\ result.ran /\ result.bad) => PrintT(<<"RESULT", ToJson([forest |-> forest, fail |-> result.fail, pre |-> pre])>>)
 =============================================================================
